@@ -150,6 +150,22 @@ Closed(i, completed) ==
                      \o (IF ~completed /\ ~svc[k].trusted THEN <<>> ELSE Reann(s2))
     /\ UNCHANGED <<started, shut, auto>>
 
+\* The same, while another goroutine registers a NEW connection for that service (an inbound request, or a dial that has just
+\* succeeded) at the moment the application is inside the disconnect notification.  The registry entry of the ended
+\* connection is dropped BEFORE the application is told, so the new entry stays (C11: "never drops the registry entry of a
+\* newer connection"); checkAutoReannounce runs afterwards and counts the new connection.
+ClosedRe(i, completed) ==
+    /\ Can /\ Bump /\ started /\ i \in 1..Len(conns) /\ ~conns[i].ended /\ Len(conns) < MaxConns
+    /\ LET k  == conns[i].ski
+           n  == Len(conns) + 1
+           s2 == [svc EXCEPT ![k].reg = n, ![k].cnt = IF svc[k].reg # 0 /\ completed THEN -1 ELSE @]
+           notify == Has("staleDisconnect") \/ svc[k].reg = i \/ svc[k].reg = 0
+       IN  /\ notify                 \* without a notification there is no moment at which it could happen
+           /\ svc' = s2
+           /\ conns' = Append([conns EXCEPT ![i].ended = TRUE], [ski |-> k, st |-> "ServerWait", err |-> FALSE, setup |-> FALSE, ended |-> FALSE])
+           /\ out' = <<"Disconnected:" \o k>> \o (IF ~completed /\ ~svc[k].trusted THEN <<>> ELSE Reann(s2))
+    /\ UNCHANGED <<started, shut, auto>>
+
 \* ReportMdnsEntries(vis): every visible SKI that is not connected and is trusted or queued gets one dial attempt; the
 \* harness' listeners refuse it, so the attempt ends in checkAutoReannounce
 Eligible(k) == svc[k].reg = 0 /\ (svc[k].trusted \/ svc[k].dstate = "Queued")
@@ -180,6 +196,7 @@ Act == \/ (Start /\ L([a |-> "Start"])) \/ (Shutdown /\ L([a |-> "Shutdown"]))
              \/ (ShipId(i) /\ L([a |-> "ShipId", i |-> i]))
              \/ (Setup(i) /\ L([a |-> "Setup", i |-> i]))
              \/ \E c \in BOOLEAN : (Closed(i, c) /\ L([a |-> "Closed", i |-> i, c |-> c]))
+             \/ \E c \in BOOLEAN : (ClosedRe(i, c) /\ L([a |-> "ClosedRe", i |-> i, c |-> c, k |-> conns[i].ski, s |-> "ServerWait"]))
        \/ \E vis \in SUBSET Skis : (ReportMdns(vis) /\ L([a |-> "ReportMdns", vis |-> vis]))
 
 \* projection the harness compares after every step
